@@ -244,7 +244,9 @@ impl GitVcs {
     fn get_tag_commit_hash(&self, tag: &str) -> Result<Option<String>> {
         // Use `git rev-list -n 1` to get the commit hash that the tag points to
         // This works for both annotated and lightweight tags
-        match self.run_git_command(&["rev-list", "-n", "1", tag]) {
+        // the trailing "--" keeps git from refusing the tag name as ambiguous when a file of the
+        // same name exists in the work tree
+        match self.run_git_command(&["rev-list", "-n", "1", tag, "--"]) {
             Ok(hash) if !hash.trim().is_empty() => Ok(Some(hash.trim().to_string())),
             Ok(_) | Err(_) => Ok(None),
         }
